@@ -146,7 +146,16 @@ func scopesValid(thorough bool) []Scope {
 // scopesC01: the common valid scopes plus the quadrant-border family on a coarse real grid (no
 // reference router there: its int64 arithmetic would overflow; C01's oracle does not need it)
 func scopesC01(thorough bool) []Scope {
-	return append(scopesValid(thorough), borderScopes(thorough)...)
+	scs := append(scopesValid(thorough), borderScopes(thorough)...)
+	// several ids requested together on the FINE lattice: a 2x2 (thorough 3x2) window of pixels of the finest id that lies
+	// inside one pixel of the coarsest id, polygons of up to five vertices (a crossing needs an edge and a vertex of
+	// another, non-adjacent part: at least five vertices)
+	w := lat.Window(2, 2, 2)
+	if thorough {
+		w = lat.Window(3, 2, 2)
+	}
+	scs = append(scs, Scope{Name: "L-half-2-multi", GS: synthGS(2, 2, [2]int64{28, 28}), Spec: lat.Spec{Points: w, MaxK: 5, Valid: true}, IDSets: [][]int{{0, 2}, {0, 1, 2}}, Cfgs: []snap.Config{{}}})
+	return scs
 }
 
 // scale multiplies lattice points (used to put a coarse window on a finer grid)
